@@ -1,4 +1,4 @@
-//@ unit props=C02,C03,C04 tier=quick kind=unbounded timeout=180 funcs="coding::encode_with_fixed_block_size (single-thread path)" stubs="Source::read_samples -> delivers min(block, remaining) samples into both the frame buffer and the context [MemSource: Kani unit source::verif::c03_memsource_read; foreign sources: trait documentation, assumption A-src]; encode_fixed_size_frame -> Ok frame with the given number and the filled block size [Kani unit coding::verif::c17_frame_number_and_sample_range]; Stream::add_frame / StreamInfo::update_frame_info -> min/max/total step [Kani unit datatype::verif::c04_update_frame_info]; StreamInfo::set_block_sizes, set_md5_digest, set_total_samples, Stream::new, FrameBuf::with_size, Context::new/md5_digest/total_samples/current_frame_number [Kani/Verus units named in DESIGN.md 6 C03]" note="closure passed to unwrap_or_else gets an `ensures` annotation (ghost); the #[cfg(feature = \"par\")] dispatch block is dropped (single-thread path only)"
+//@ unit props=C02,C03,C04,C17 tier=quick kind=unbounded timeout=180 funcs="coding::encode_with_fixed_block_size (single-thread path)" stubs="Source::read_samples -> delivers min(block, remaining) samples into both the frame buffer and the context [MemSource: Kani unit source::verif::c03_memsource_read; foreign sources: trait documentation, assumption A-src]; encode_fixed_size_frame -> Ok frame with the given number and the filled block size [Kani unit coding::verif::c17_frame_number_and_sample_range]; Stream::add_frame / StreamInfo::update_frame_info -> min/max/total step [Kani unit datatype::verif::c04_update_frame_info]; StreamInfo::set_block_sizes, set_md5_digest, set_total_samples, Stream::new, FrameBuf::with_size, Context::new/md5_digest/total_samples/current_frame_number [Kani/Verus units named in DESIGN.md 6 C03]" note="closure passed to unwrap_or_else gets an `ensures` annotation (ghost); the #[cfg(feature = \"par\")] dispatch block is dropped (single-thread path only)"
 // The single-thread stream driver, for ANY number of frames (loop invariant over a ghost frame
 // list; termination by the source's remaining length):
 //   C02  frame i carries number i; every frame except the last holds exactly `block_size` samples;
@@ -111,6 +111,9 @@ impl Stream {
                 &&& r->Ok_0.info.channels == channels
                 &&& r->Ok_0.info.bits_per_sample == bits_per_sample
                 &&& 1 <= channels <= 8
+                // C17: the only place where the declared width and rate are validated (Kani c17_stream_info_new)
+                &&& 8 <= bits_per_sample <= 25
+                &&& sample_rate <= 96_000
                 &&& r->Ok_0.info.min_frame_size == u32::MAX
                 &&& r->Ok_0.info.max_frame_size == 0
                 &&& r->Ok_0.info.total_samples == 0
@@ -170,6 +173,9 @@ pub uninterp spec fn md5_of(bytes: Seq<u8>) -> Seq<u8>;
 impl Context {
     #[verifier::external_body]
     pub fn new(bits_per_sample: usize, channels: usize) -> (r: Self)
+        // `Context::new` PANICS for widths above 32 bits (its assert; Verus unit context_fill): the
+        // driver must have rejected the width before it gets here (C17)
+        requires bits_per_sample <= 32,
         ensures r.sample_count == 0 && r.frame_count == 0 && r.fed@.len() == 0,
     { unimplemented!() }
     #[verifier::external_body]
